@@ -6,7 +6,7 @@ From YV Require Import lib.Base model.YWorld model.YProto gen.Consts gen.FsmGen 
 
 (** negotiation: session hold time = min(own, proposed), keepalive period = hold/3 *)
 Theorem C03_negotiated_min : forall h w, let w' := negotiate_hold_time h w in
-  (N.min (w_hold w) h = 0 \/ 3 <= N.min (w_hold w) h) ->
+  (h = 0 \/ 3 <= h) -> (N.min (w_hold w) h = 0 \/ 3 <= N.min (w_hold w) h) ->
   w_hold w' = N.min (w_hold w) h /\ w_ka3 w' = N.min (w_hold w) h /\ w_out w' = w_out w /\ w_state w' = w_state w.
 Proof. exact negotiate_min. Qed.
 Print Assumptions C03_negotiated_min.
